@@ -55,6 +55,10 @@ FSend(m) == inq' = Append(inq, m) /\ UNCHANGED <<cur, skip, stmts, portals, eofs
 
 FEof == eofseen' = TRUE /\ UNCHANGED <<cur, inq, skip, stmts, portals, faulted, fam>>
 
+\* the server is closing (Server.Close has begun): the message it read next is not admitted, gets no reply
+\* and changes nothing (C16); the recorder notes the refusal where the library reports it (cmd.refused)
+FRefused == cur.s = "idle" /\ inq # <<>> /\ inq' = Tail(inq) /\ UNCHANGED <<cur, skip, stmts, portals, eofseen, faulted, fam>>
+
 \* a write failed: the client is gone; whatever was being sent is cut short
 FFault == faulted' = TRUE /\ UNCHANGED <<cur, inq, skip, stmts, portals, eofseen, fam>>
 
